@@ -49,7 +49,7 @@ impl OutputFormat for PCBoard {
                 if first_char || ch.attribute != last_attr {
                     result.extend_from_slice(b"@X");
                     result.push(HEX_TABLE[ch.attribute.get_background() as usize]);
-                    result.push(HEX_TABLE[ch.attribute.get_foreground() as usize]);
+                    result.push(HEX_TABLE[ch.attribute.get_shown_foreground() as usize]);
                     last_attr = ch.attribute;
                 }
 
